@@ -2,7 +2,8 @@
 # usage: tools/seed_check.sh <Cxx> <k> [tier]   -- validates /tmp/seed_<Cxx>/out/{patch,demo,meta}<k> and files it under seeded/
 set -u
 P=$1; K=$2; TIER=${3:-quick}
-SRC=/tmp/seed_$P/out
+SRC=${SEED_SRC:-/tmp/seed_$P/out}
+DK=${SEED_DEST_K:-$K}   # number under which the change is filed (second-round changes are filed as 3 and 4)
 WT=/tmp/wt_mut
 [ -d $WT ] || git -C /repo worktree add -q --detach $WT HEAD
 git -C $WT checkout -q --detach $(git -C /repo rev-parse HEAD); git -C $WT checkout -q -- .; git -C $WT clean -fdq
@@ -16,4 +17,4 @@ cd /verif
 PYTHONPATH=$WT:. PYTHONDONTWRITEBYTECODE=1 PYTHONHASHSEED=0 /venv/bin/python -m vf.run $P $TIER 2>&1 | grep -E "^VIOLATION|bucket=|^C[0-9]+ |HARNESS" | cut -c1-220 | head -${MUT_LINES:-8}
 git -C $WT checkout -q -- .; git -C $WT clean -fdq
 git -C /verif checkout -q -- evidence 2>/dev/null
-mkdir -p seeded/$P-$K && cp $SRC/patch$K.diff seeded/$P-$K/patch.diff && cp $SRC/demo$K.py seeded/$P-$K/demo.py && cp $SRC/meta$K.json seeded/$P-$K/meta.json
+mkdir -p seeded/$P-$DK && cp $SRC/patch$K.diff seeded/$P-$DK/patch.diff && cp $SRC/demo$K.py seeded/$P-$DK/demo.py && cp $SRC/meta$K.json seeded/$P-$DK/meta.json
